@@ -28,6 +28,28 @@ def cases(rng, tier):
     from ..real import hex6 as _hex6
     for raw in ("KKKKKKKKKK", "DATA", "README", "LICENSE", "KKEGGGGGGG", "EEEEEEEEGG"):
         yield Case(["mkcwd %s region" % _hex6(raw), "mkcwd %s specregion" % _hex6(raw)], {"kind": "namesake-file-in-cwd"})
+    # chains beyond 1000 residues: lengths at / next to powers of two and round thousands with compositions spread over the diagram, and
+    # arbitrary lengths (primes included) with the charged count / the net charge on either side of N/4 and 7N/20
+    for N4 in gen.boundary_lengths(True) + [8192, 12288]:
+        for _k in range(2 if tier == "quick" else 8):
+            fcr = rng.choice([0.1, 0.15, 0.2, 0.29, 0.3, 0.4, 0.6, 0.9])
+            c = int(N4 * fcr)
+            a = rng.choice([c // 2, c // 2 + int(0.1 * N4), c, 0, int(c * 0.52)])
+            a = max(0, min(c, a))
+            sq = gen.spell(gen.arrange((a, c - a, N4 - c), rng), rng)
+            yield Case(["q region " + sq, "q specregion " + sq], {"kind": "boundary-length"})
+    for _k in range(60 if tier == "quick" else 600):
+        N5 = rng.choice([1009, 1013, 1983, 1997, 2017, 2999, 3001, 4999]) if rng.random() < 0.5 else rng.randint(1001, 5000)
+        num, den = rng.choice([(1, 4), (7, 20)])
+        c = N5 * num // den + rng.choice([0, 1])
+        if rng.random() < 0.5:
+            a = rng.choice([0, c, c // 2, c // 3])                       # charged count next to the threshold
+            comp = (a, c - a, N5 - c)
+        else:
+            b = rng.randint(0, (N5 - c) // 2)                           # net charge next to 7N/20 (or N/4), in both signs
+            comp = (b + c, b, N5 - c - 2 * b) if rng.random() < 0.5 else (b, b + c, N5 - c - 2 * b)
+        sq = gen.spell(gen.arrange(comp, rng), rng)
+        yield Case(["q region " + sq, "q specregion " + sq], {"kind": "long-chain-next-to-threshold"})
     # very long chains (> 1000 residues, lengths that are not round numbers)
     for sq in gen.very_long(rng, tier != "quick"):
         yield Case(["q %s %s%s" % (q.split(" ")[0], sq, "".join(" " + a for a in q.split(" ")[1:])) for q in ['region']], {"kind": "very-long"})
